@@ -22,6 +22,7 @@ const (
 	kRSA  = "rsa"  // crypto.EncryptPublicKey / DecryptPrivateKey
 	kCron = "cron" // cron.ParseStandard / own Parser, Next, cron.PrintfLogger
 	kLog  = "log"  // logger.NewLogger by distinct names, own output buffers, same-name look-ups
+	kAead = "aead" // EXTRA class (object-level, not package-level shared state): Seal/Open on ONE aescbcaead AEAD shared by all aead workers of the cast with the same variant
 )
 
 // wspec is one worker of the cast. Only the fields of its kind are meaningful
@@ -48,8 +49,19 @@ type wspec struct {
 	// pool
 	Fill    int
 	Cap     int
-	Style   string // append | resize
+	Style   string // append | resize | keep
 	OwnPool bool   // a pool of the worker's own instead of the cast's shared pool
+	// pool, style keep: the worker keeps using slices it never put back
+	Grows   int  // growing Resize calls in a chain (size > capacity, so a new slice must be allocated); every earlier slice is kept and read later
+	Grow    int  // bytes beyond the current capacity asked for by each growing Resize
+	Second  int  // > 0: a second Get while the others are still held, filled with that many bytes
+	PutOrig bool // the slices that were outgrown are put back at the end (the `defer pool.Put(buf)` idiom), each exactly once; false: left to the garbage collector
+
+	// aead
+	Variant int // 0: AES128-CBC-HMAC-SHA256, 1: AES192/SHA384, 2: AES256/SHA384, 3: AES256/SHA512
+	Iter    int // Seal -> Open pairs per repetition
+	AadLen  int
+	Prefix  int // bytes already in dst
 
 	// sym / sig / rsa
 	CAlg  string
@@ -77,7 +89,12 @@ func (w wspec) String() string {
 		return head + fmt.Sprintf(" len=%d cph=%d kn=%d pad=%d alg=%s wrap=%s mode=%s tamper=%s cons=%d src=%d}",
 			w.Len, w.Cipher, w.KeyName, w.WrapPad, w.Alg, w.Wrap, w.Mode, w.Tamper, w.Cons, w.Src)
 	case kPool:
+		if w.Style == "keep" {
+			return head + fmt.Sprintf(" fill=%d cap=%d style=%s own=%v grows=%d grow=%d second=%d putorig=%v}", w.Fill, w.Cap, w.Style, w.OwnPool, w.Grows, w.Grow, w.Second, w.PutOrig)
+		}
 		return head + fmt.Sprintf(" fill=%d cap=%d style=%s own=%v}", w.Fill, w.Cap, w.Style, w.OwnPool)
+	case kAead:
+		return head + fmt.Sprintf(" variant=%d pt=%d iter=%d aad=%d prefix=%d}", w.Variant, w.PtLen, w.Iter, w.AadLen, w.Prefix)
 	case kSym, kSig, kRSA:
 		return head + fmt.Sprintf(" alg=%s pt=%d key=%d}", w.CAlg, w.PtLen, w.Key)
 	case kCron:
@@ -90,14 +107,19 @@ func (w wspec) String() string {
 
 // cast is the whole case.
 type cast struct {
-	Procs   int // GOMAXPROCS of the concurrent phase
-	Rounds  int // how many times the concurrent phase is run
+	Procs   int    // GOMAXPROCS of the concurrent phase
+	Rounds  int    // how many times the concurrent phase is run
+	AeadKey uint64 // the keys of the cast's shared AEADs are expanded from it (the same keys in the solo and in the concurrent phase)
 	Workers []wspec
 }
 
 func (c cast) encode() string {
 	var b strings.Builder
-	fmt.Fprintf(&b, "cast{procs=%d rounds=%d workers=%d:", c.Procs, c.Rounds, len(c.Workers))
+	fmt.Fprintf(&b, "cast{procs=%d rounds=%d", c.Procs, c.Rounds)
+	if c.count(kAead) > 0 {
+		fmt.Fprintf(&b, " aeadkey=%d", c.AeadKey)
+	}
+	fmt.Fprintf(&b, " workers=%d:", len(c.Workers))
 	for i, w := range c.Workers {
 		fmt.Fprintf(&b, " w%d=%s", i, w.String())
 	}
@@ -159,8 +181,27 @@ func genEnc(rt *rapid.T, w *wspec) {
 func genPool(rt *rapid.T, w *wspec) {
 	w.Fill = rapid.IntRange(1, 4096).Draw(rt, "fill")
 	w.Cap = rapid.SampledFrom([]int{0, 16, 64, 1024, 8192}).Draw(rt, "cap")
-	w.Style = rapid.SampledFrom([]string{"append", "append", "resize"}).Draw(rt, "style")
+	w.Style = rapid.SampledFrom([]string{"append", "append", "resize", "keep", "keep"}).Draw(rt, "style")
 	w.OwnPool = rapid.IntRange(0, 5).Draw(rt, "ownPool") == 0
+	if w.Style == "keep" {
+		// a caller that goes on using what it never gave back: the slice it passed to a growing Resize
+		// (Resize does not consume its argument) and/or a second slice taken while the first is held
+		w.Grows = rapid.SampledFrom([]int{0, 1, 1, 1, 2}).Draw(rt, "grows")
+		w.Grow = rapid.SampledFrom([]int{0, 1, 16, 100, 1000, 5000}).Draw(rt, "grow")
+		w.Second = rapid.SampledFrom([]int{0, 0, 1, 16, 300, 3000}).Draw(rt, "second")
+		if w.Grows == 0 && w.Second == 0 {
+			w.Second = 16
+		}
+		w.PutOrig = rapid.Bool().Draw(rt, "putOrig")
+	}
+}
+
+func genAead(rt *rapid.T, w *wspec) {
+	w.Variant = rapid.IntRange(0, 3).Draw(rt, "variant")
+	w.PtLen = rapid.SampledFrom([]int{0, 1, 15, 16, 17, 100, 500, 3000}).Draw(rt, "ptLen") + rapid.IntRange(0, 40).Draw(rt, "ptExtra")
+	w.Iter = rapid.IntRange(1, 40).Draw(rt, "iter")
+	w.AadLen = rapid.SampledFrom([]int{0, 1, 13, 64, 200}).Draw(rt, "aadLen")
+	w.Prefix = rapid.SampledFrom([]int{0, 0, 5, 32}).Draw(rt, "prefix")
 }
 
 var rsaAlgs = []string{"RSA1_5", "RSA-OAEP", "RSA-OAEP-256", "RSA-OAEP-384", "RSA-OAEP-512"}
@@ -292,30 +333,42 @@ func genWorker(rt *rapid.T, kind string) wspec {
 		genCron(rt, &w)
 	case kLog:
 		genLog(rt, &w)
+	case kAead:
+		genAead(rt, &w)
 	}
 	return w
 }
 
-// genCast draws the cast. Three casting styles: mixed (every kind, enc weighted
-// highest), enc-heavy (enc plus a few others: the most BufPool traffic) and
-// small-state (pool, log, cron, crypto only: the most registry / shared pool traffic).
+// genCast draws the cast. Four casting styles: mixed (every kind, enc weighted
+// highest), enc-heavy (enc plus a few others: the most BufPool traffic),
+// small-state (pool, log, cron, crypto only: the most registry / shared pool traffic)
+// and shared-object (pool and aead workers mostly: one pool, at most two shared AEADs).
 func genCast(rt *rapid.T, procs []int) cast {
 	c := cast{}
 	c.Procs = rapid.SampledFrom(procs).Draw(rt, "procs")
 	c.Rounds = rapid.IntRange(1, 3).Draw(rt, "rounds")
+	c.AeadKey = rapid.Uint64().Draw(rt, "aeadKey")
 	n := rapid.IntRange(8, 32).Draw(rt, "workers")
 	var kinds []string
-	switch rapid.IntRange(0, 9).Draw(rt, "style") {
+	aeadVariants := 4
+	switch rapid.IntRange(0, 10).Draw(rt, "style") {
 	case 0, 1, 2:
 		kinds = []string{kEnc, kEnc, kEnc, kEnc, kEnc, kEnc, kEnc, kPool, kSym, kCron, kLog}
 	case 3:
-		kinds = []string{kPool, kPool, kPool, kLog, kLog, kLog, kCron, kCron, kSym, kSig, kRSA}
+		kinds = []string{kPool, kPool, kPool, kLog, kLog, kLog, kCron, kCron, kSym, kSig, kRSA, kAead, kAead}
+	case 4:
+		kinds = []string{kPool, kPool, kPool, kAead, kAead, kAead, kAead, kSym, kEnc, kLog}
+		aeadVariants = 2
 	default:
-		kinds = []string{kEnc, kEnc, kEnc, kEnc, kEnc, kEnc, kPool, kPool, kPool, kSym, kSym, kSig, kRSA, kCron, kCron, kLog, kLog, kLog}
+		kinds = []string{kEnc, kEnc, kEnc, kEnc, kEnc, kEnc, kPool, kPool, kPool, kSym, kSym, kSig, kRSA, kCron, kCron, kLog, kLog, kLog, kAead, kAead}
 	}
+	aeadBase := rapid.IntRange(0, 3).Draw(rt, "aeadBase")
 	for i := 0; i < n; i++ {
 		k := rapid.SampledFrom(kinds).Draw(rt, "kind")
 		w := genWorker(rt, k)
+		if k == kAead {
+			w.Variant = (aeadBase + w.Variant%aeadVariants) % 4
+		}
 		if k == kEnc && w.Len > 60000 && w.Reps > 2 {
 			w.Reps = 2 // bulk is expensive under the race detector; the repetitions go to the small messages
 		}
